@@ -75,23 +75,23 @@ ASSUMPTIONS = [
 ]
 
 BOUND = {"quick": 5, "thorough": 7}
-LAYOUTS = {"quick": 30, "thorough": 700}        # per shard
+LAYOUTS = {"quick": 30, "thorough": 500}        # per shard
 FLOORS = {
     "quick": {"judged": 1500000, "judged_loads": 20000, "layouts": 480,
               "judged_fragment": 3000, "fragment_rejected": 3000,
               "accepted": 20000, "judged_ispath": 190000,
               "judged_urljoin": 700000, "judged_urlnormalize": 170000,
               "judged_urldefrag": 190000, "judged_normalizeurl": 170000},
-    "thorough": {"judged": 150000000, "judged_loads": 500000,
-                 "layouts": 11200, "judged_fragment": 80000,
-                 "fragment_rejected": 80000, "accepted": 500000,
+    "thorough": {"judged": 150000000, "judged_loads": 350000,
+                 "layouts": 8000, "judged_fragment": 60000,
+                 "fragment_rejected": 60000, "accepted": 350000,
                  "judged_ispath": 21000000, "judged_urljoin": 80000000,
                  "judged_urlnormalize": 20000000,
                  "judged_urldefrag": 21000000,
                  "judged_normalizeurl": 20000000},
 }
 HOOK_FLOORS = {"quick": {"createResource": 80000},
-               "thorough": {"createResource": 2000000}}
+               "thorough": {"createResource": 1400000}}
 
 ALPHABET = "aC:/\\#.file"
 BASES = ["file:///d/e/f.c", "file:///d/", "file:///", "http://h/p/q"]
